@@ -74,6 +74,24 @@ def writer_layout(chk, fn):
             args = n['a'] if n['k'] == 'Call' else n['a']
             fields = tuple(f for f in (self_field_of(a) for a in args) if f)
             if not fields:
+                # a local derived from exactly one field of self (e.g. the line table converted to the format of the target version)
+                lets = {}
+                for l_ in T.walk(fn['body']):
+                    if l_.get('k') == 'Let' and l_.get('init') is not None:
+                        for b_ in T.walk(l_['pat']):
+                            if b_.get('k') == 'Bind':
+                                lets[b_['id']] = l_['init']
+                derived = set()
+                for a in args:
+                    a = T.peel(a)
+                    if a.get('k') == 'Local' and a.get('id') in lets:
+                        for x in T.walk(lets[a['id']]):
+                            f_ = self_field_of(x) if x.get('k') == 'Field' else None
+                            if f_ and f_ not in ('code',):
+                                derived.add(f_)
+                if len(derived) == 1:
+                    fields = (derived.pop(),)
+            if not fields:
                 continue
         vs = ctx_versions(ctx)
         if vs is None:
